@@ -39,6 +39,10 @@
 // variants (what a valid signature signs / its outcome carries: no envelope content
 // or a bare descriptor, a descriptor with user-metadata annotations, a copy of the
 // resolved descriptor). The resolved descriptor has every optional field set.
+// Plus, for the same cases (generic errors, first payload): 5 decorations of the
+// LISTED manifest descriptors (org.opencontainers.image.created annotations oldest
+// first / newest first / zigzag / all equal, or none) x 4 blob media types of the
+// signatures that do not verify (jose/cose, a pre-1.0 type, empty, text/plain).
 //
 // Replay case = {verifier, policy, listing kinds, page sizes, limit, reference kind}.
 package main
@@ -260,7 +264,46 @@ var (
 	scriptedBlobs [][]byte
 )
 
+// Listing decorations: attributes of the LISTED manifest descriptors a shortcut might key on. The statement
+// speaks of listing order only, so none of them may change which signatures are tried.
+var decoNames = []string{"no-annotations", "created-oldest-first", "created-newest-first", "created-zigzag", "created-all-equal"}
+var manifestsDeco [][]ocispec.Descriptor // [decoration][position]
+
+// Blob media types of the signatures that do NOT verify (what FetchSignatureBlob's descriptor says). A signature
+// of an envelope type nobody can verify is still a listed signature: it is invalid, nothing else.
+var invalidMTNames = []string{"supported(jose/cose)", "application/vnd.cncf.notary.v2.jws.v1", "", "text/plain; charset=utf-8"}
+
+func initDecorations() {
+	const annCreated = "org.opencontainers.image.created"
+	base := time.Date(2023, 1, 15, 10, 0, 0, 0, time.UTC)
+	zigzag := []int{2, 0, 4, 1, 5, 3}
+	for d := range decoNames {
+		var ms []ocispec.Descriptor
+		for i := 0; i < maxK; i++ {
+			m := manifests[i]
+			if d > 0 {
+				rank := i // months after base
+				switch d {
+				case 2:
+					rank = maxK - i
+				case 3:
+					rank = zigzag[i]
+				case 4:
+					rank = 0
+				}
+				m.Annotations = map[string]string{
+					annCreated: base.AddDate(0, rank, 0).Format(time.RFC3339),
+					"io.cncf.notary.x509chain.thumbprint#S256": fmt.Sprintf("[\"%064x\"]", i),
+				}
+			}
+			ms = append(ms, m)
+		}
+		manifestsDeco = append(manifestsDeco, ms)
+	}
+}
+
 func initFixtures() {
+	defer initDecorations()
 	for i := 0; i < maxK; i++ {
 		blob := []byte(fmt.Sprintf("C10 scripted signature envelope #%d", i))
 		mt := forge.JWS
@@ -335,6 +378,8 @@ type caseT struct {
 	world int // which descriptor the repository resolves (worlds[world])
 	errK  int // errKinds[errK]: how unfetchable / invalid signatures fail
 	pay   int // payloadNames[pay]: what valid signatures sign
+	deco  int // decoNames[deco]: annotations of the listed manifest descriptors
+	imt   int // invalidMTNames[imt]: blob media type of the signatures that do not verify
 }
 
 func (c *caseT) w() *world { return worlds[c.world] }
@@ -350,10 +395,16 @@ type replayCase struct {
 	ReferenceString string   `json:"reference_string,omitempty"`
 	ErrorKind       string   `json:"error_kind,omitempty"`     // errKinds[].name ("" = generic)
 	SignedPayload   string   `json:"signed_payload,omitempty"` // payloadNames[] ("" = the first)
+	Decoration      string   `json:"listed_descriptor_annotations,omitempty"`
+	InvalidBlobMT   *string  `json:"invalid_signature_blob_media_type,omitempty"` // absent = supported (jose/cose)
 }
 
 func (c *caseT) replay() replayCase {
-	rc := replayCase{Verifier: "scripted", Policy: "non-skip", Pages: append([]int{}, c.pages...), Limit: c.n, Reference: refNames[c.ref], Resolved: c.w().name, ReferenceString: c.w().refStrings[c.ref], Listing: []string{}, ErrorKind: errKinds[c.errK].name, SignedPayload: payloadNames[c.pay]}
+	rc := replayCase{Verifier: "scripted", Policy: "non-skip", Pages: append([]int{}, c.pages...), Limit: c.n, Reference: refNames[c.ref], Resolved: c.w().name, ReferenceString: c.w().refStrings[c.ref], Listing: []string{}, ErrorKind: errKinds[c.errK].name, SignedPayload: payloadNames[c.pay], Decoration: decoNames[c.deco]}
+	if c.imt > 0 {
+		mt := invalidMTNames[c.imt]
+		rc.InvalidBlobMT = &mt
+	}
 	if c.pass != pScripted {
 		rc.Verifier = "real"
 	}
@@ -368,7 +419,7 @@ func (c *caseT) replay() replayCase {
 
 func (c *caseT) String() string {
 	rc := c.replay()
-	return fmt.Sprintf("verifier=%s policy=%s listing=[%s] pages=%v limit=%d repository-resolves=%s reference=%s(%q) errors=%s signed-payload=%s", rc.Verifier, rc.Policy, strings.Join(rc.Listing, ","), rc.Pages, rc.Limit, rc.Resolved, rc.Reference, rc.ReferenceString, rc.ErrorKind, rc.SignedPayload)
+	return fmt.Sprintf("verifier=%s policy=%s listing=[%s] pages=%v limit=%d repository-resolves=%s reference=%s(%q) errors=%s signed-payload=%s listed-annotations=%s invalid-blob-media-type=%q", rc.Verifier, rc.Policy, strings.Join(rc.Listing, ","), rc.Pages, rc.Limit, rc.Resolved, rc.Reference, rc.ReferenceString, rc.ErrorKind, rc.SignedPayload, rc.Decoration, invalidMTNames[c.imt])
 }
 
 func fromReplay(rc replayCase) (*caseT, error) {
@@ -398,6 +449,18 @@ func fromReplay(rc replayCase) (*caseT, error) {
 	for i, n := range payloadNames {
 		if n == rc.SignedPayload {
 			c.pay = i
+		}
+	}
+	for i, n := range decoNames {
+		if n == rc.Decoration {
+			c.deco = i
+		}
+	}
+	if rc.InvalidBlobMT != nil {
+		for i, n := range invalidMTNames {
+			if i > 0 && n == *rc.InvalidBlobMT {
+				c.imt = i
+			}
 		}
 	}
 	switch rc.Resolved {
@@ -569,12 +632,13 @@ func reference(c *caseT) expectation {
 // ---------------- running the real code ----------------
 
 type obs struct {
-	desc     ocispec.Descriptor
-	outs     []*notation.VerificationOutcome
-	err      error
-	panicked any
-	log      *callLog
-	blobs    [][]byte
+	desc      ocispec.Descriptor
+	outs      []*notation.VerificationOutcome
+	err       error
+	panicked  any
+	log       *callLog
+	blobs     [][]byte
+	blobDescs []ocispec.Descriptor
 }
 
 var ctx = context.Background()
@@ -602,7 +666,18 @@ func runCase(fx *realFixtures, c *caseT) (o *obs) {
 		repo.blobs, repo.blobDescs = blobs, descs
 		v = &loggingVerifier{inner: fx.strict, index: fx.index, n: len(c.kinds), log: lg}
 	}
-	o.blobs = repo.blobs
+	repo.manifests = manifestsDeco[c.deco]
+	if c.imt > 0 { // the signatures that do not verify are of an envelope type notation does not know
+		ds := make([]ocispec.Descriptor, len(c.kinds))
+		copy(ds, repo.blobDescs)
+		for i, k := range c.kinds {
+			if k == kInvalid || k == kNilOutcome {
+				ds[i].MediaType = invalidMTNames[c.imt]
+			}
+		}
+		repo.blobDescs = ds
+	}
+	o.blobs, o.blobDescs = repo.blobs, repo.blobDescs
 	defer func() {
 		if p := recover(); p != nil {
 			o.panicked = p
@@ -881,7 +956,7 @@ func a3Deviations(c *caseT, e *expectation, o *obs, viol func(key, detail string
 	for i, v := range lg.verifies {
 		vseq[i] = v.Sig
 		if v.Sig >= 0 {
-			if want := blobMT(c, v.Sig); v.MT != want {
+			if want := o.blobDescs[v.Sig].MediaType; v.MT != want {
 				viol("args/verify-media-type", fmt.Sprintf("verify call %d (signature #%d) got media type %q, the fetched blob descriptor says %q", i, v.Sig, v.MT, want))
 			}
 		}
@@ -915,10 +990,6 @@ func a3Deviations(c *caseT, e *expectation, o *obs, viol func(key, detail string
 	}
 	checkSeq("fetch", "fetched", fseq, e.fetchN)
 	checkSeq("verify", "verified", vseq, e.verifyN)
-}
-
-func blobMT(c *caseT, i int) string {
-	return blobDescs[i].MediaType // the real fixtures keep the media type of position i
 }
 
 // ---------------- recorded (not judged) facts ----------------
@@ -1100,8 +1171,8 @@ func enumerate(r *hx.Run, fx *realFixtures, sp spaceT) {
 		kinds := listings[i]
 		evals, calls := 0, 0
 		// the extra dimensions matter where a signature fails / verifies: references that reach the listing, N >= 1
-		type variant struct{ errK, pay int }
-		variants := []variant{{0, 0}}
+		type variant struct{ errK, pay, deco, imt int }
+		variants := []variant{{0, 0, 0, 0}}
 		if len(kinds) <= sp.variantUpTo && sp.pass != pSkip {
 			hasFailing, hasValid := false, false
 			for _, k := range kinds {
@@ -1118,7 +1189,24 @@ func enumerate(r *hx.Run, fx *realFixtures, sp spaceT) {
 			variants = variants[:0]
 			for a := 0; a < ne; a++ {
 				for b := 0; b < np; b++ {
-					variants = append(variants, variant{a, b})
+					variants = append(variants, variant{a, b, 0, 0})
+				}
+			}
+			// listing decorations x media types of the non-verifying signatures (generic errors, first payload)
+			nd, nm := 1, 1
+			if len(kinds) >= 2 {
+				nd = len(decoNames)
+			}
+			for _, k := range kinds {
+				if k == kInvalid || k == kNilOutcome {
+					nm = len(invalidMTNames)
+				}
+			}
+			for a := 0; a < nd; a++ {
+				for b := 0; b < nm; b++ {
+					if a+b > 0 {
+						variants = append(variants, variant{0, 0, a, b})
+					}
 				}
 			}
 		}
@@ -1131,7 +1219,7 @@ func enumerate(r *hx.Run, fx *realFixtures, sp spaceT) {
 						vs = variants[:1]
 					}
 					for _, vr := range vs {
-						c := &caseT{pass: sp.pass, kinds: kinds, pages: pages, n: n, ref: ref.kind, world: ref.world, errK: vr.errK, pay: vr.pay}
+						c := &caseT{pass: sp.pass, kinds: kinds, pages: pages, n: n, ref: ref.kind, world: ref.world, errK: vr.errK, pay: vr.pay, deco: vr.deco, imt: vr.imt}
 						e := reference(c)
 						o := runCase(fx, c)
 						evals++
